@@ -984,6 +984,12 @@ func (fc *FC) val(v ssa.Value) *RF {
 		}
 		return r
 	case *ssa.Slice:
+		// an empty slice literal (`S{}`): a fresh slice of length 0
+		if al, ok := v.X.(*ssa.Alloc); ok && v.Low == nil && v.High == nil && v.Max == nil {
+			if at, isArr := al.Type().Underlying().(*types.Pointer).Elem().Underlying().(*types.Array); isArr && at.Len() == 0 {
+				return s.MakeFn("makeslice:"+x.W.FuncName(fc.Fn)+":"+al.Name(), s.Int(0))
+			}
+		}
 		args := []*RF{fc.Val(v.X)}
 		for _, b := range []ssa.Value{v.Low, v.High, v.Max} {
 			if b == nil {
@@ -1762,6 +1768,75 @@ func closureStoresTo(cf *ssa.Function, fvIdx int) bool {
 
 // ---- phis ----
 
+// rotatedExitOf: the header phi that the exit merge p of a rotated loop stands for, or nil.
+func (fc *FC) rotatedExitOf(p *ssa.Phi, vals []ssa.Value, preds []*ssa.BasicBlock) *ssa.Phi {
+	if len(vals) != 2 {
+		return nil
+	}
+	for _, l := range fc.Ctx.Loops() {
+		if l.Body[p.Block().Index] || len(l.Latch) != 1 {
+			continue
+		}
+		lt := l.Latch[0]
+		var pre *ssa.BasicBlock
+		nOut := 0
+		for _, hp := range fc.Ctx.LivePreds(l.Header) {
+			if !l.Body[hp.Index] {
+				pre = hp
+				nOut++
+			}
+		}
+		if nOut != 1 {
+			continue
+		}
+		var fromPre, fromLatch ssa.Value
+		for i, pr := range preds {
+			switch pr {
+			case pre:
+				fromPre = vals[i]
+			case lt:
+				fromLatch = vals[i]
+			}
+		}
+		if fromPre == nil || fromLatch == nil {
+			continue
+		}
+		// both the preheader and the latch end in a two-way branch between the header and p's block
+		twoWay := func(b *ssa.BasicBlock) bool {
+			if _, isIf := b.Instrs[len(b.Instrs)-1].(*ssa.If); !isIf || len(b.Succs) != 2 {
+				return false
+			}
+			return (b.Succs[0] == l.Header && b.Succs[1] == p.Block()) || (b.Succs[1] == l.Header && b.Succs[0] == p.Block())
+		}
+		if !twoWay(pre) || !twoWay(lt) {
+			continue
+		}
+		for _, in := range l.Header.Instrs {
+			h, ok := in.(*ssa.Phi)
+			if !ok {
+				break
+			}
+			hv, hp := fc.Ctx.PhiLiveEdges(h)
+			if len(hv) != 2 {
+				continue
+			}
+			match := 0
+			for i, pr := range hp {
+				if pr == pre && hv[i] == fromPre {
+					match++
+				}
+				if pr == lt && hv[i] == fromLatch {
+					match++
+				}
+			}
+			if match == 2 {
+				return h
+			}
+		}
+	}
+	return nil
+}
+
 func (fc *FC) phi(p *ssa.Phi) *RF {
 	s := fc.X.S
 	vals, preds := fc.Ctx.PhiLiveEdges(p)
@@ -1816,6 +1891,12 @@ func (fc *FC) phi(p *ssa.Phi) *RF {
 			}
 		}
 		return atom
+	}
+	// the merge at the exit of a rotated (bottom-tested) loop — initial value from the
+	// preheader's skip edge, next value from the latch — carries exactly the incoming values of
+	// a header phi: it is that loop variable as it stands when the loop is over
+	if h := fc.rotatedExitOf(p, vals, preds); h != nil {
+		return fc.Val(h)
 	}
 	rfs := make([]*RF, len(vals))
 	for i, v := range vals {
@@ -1985,7 +2066,7 @@ func (x *Extractor) callFn(f *ssa.Function, args, iargs []*RF) *RF {
 	}
 	n := f.String()
 	n = strings.ReplaceAll(n, x.W.ModPath+"/", "")
-	return x.S.MakeFn(n, args...)
+	return x.S.MakeFn(canonCallee(n), args...)
 }
 
 // inline returns the gated single-assignment value of f(args), or nil when f
@@ -2417,7 +2498,7 @@ func (fc *FC) BoundCallees(depth int) []*FC {
 				return
 			}
 			f := c.Common().StaticCallee()
-			if f == nil || f.Blocks == nil || chain[f] || f.Pkg == nil || !fc.X.W.IsLib[f.Pkg] || len(c.Common().Args) != len(f.Params) {
+			if f == nil || f.Blocks == nil || chain[f] || !fc.X.W.IsLibFunc(f) || len(c.Common().Args) != len(f.Params) {
 				return
 			}
 			bind := map[*ssa.Parameter]*RF{}
@@ -2492,7 +2573,7 @@ func (fc *FC) fieldAfterCall(call *ssa.Call, c cellKey, cellType types.Type) *RF
 	if f == nil || f.Blocks == nil || len(cm.Args) != len(f.Params) || x.depth[f] > 0 || len(f.Blocks) > 3*x.MaxInlineBlocks {
 		return nil
 	}
-	if f.Pkg == nil || !x.W.IsLib[f.Pkg] {
+	if !x.W.IsLibFunc(f) {
 		return nil
 	}
 	st, ok := cellType.Underlying().(*types.Struct)
@@ -2686,7 +2767,7 @@ func (fc *FC) TailCallees() []*FC {
 				continue
 			}
 			f := c.Common().StaticCallee()
-			if f == nil || f.Blocks == nil || f.Pkg == nil || !fc.X.W.IsLib[f.Pkg] || len(c.Common().Args) != len(f.Params) {
+			if f == nil || f.Blocks == nil || !fc.X.W.IsLibFunc(f) || len(c.Common().Args) != len(f.Params) {
 				continue
 			}
 			dup := false
